@@ -639,7 +639,7 @@ def dnskey_round_trip(ctx, report, rule='C08.R12'):
 def txt_chunks(ctx, report, rule='C08.R7'):
     """DnsRecordTxt.compose evaluated (sa.miniexec) with a recording composer for texts of 0, 1, 254..257, 510..512, 600 and
     1000 characters: the character-strings it writes are at most 255 octets each and their concatenation is the text"""
-    from ..miniexec import Evaluator, Obj, Raised, Unsupported
+    from ..miniexec import Evaluator, Obj, Raised, Unsupported, class_call_hook
     report.rule(rule, 'TXT data: character-strings of at most 255 octets whose concatenation is the whole text')
     c = ctx.model.try_cls('DnsRecordTxt')
     f = c.methods.get('compose') if c is not None else None
@@ -676,7 +676,9 @@ def txt_chunks(ctx, report, rule='C08.R7'):
                 if isinstance(r, Composer):
                     box['c'] = r
                 return r
-            Evaluator({'self': Obj(value=text)}, hook2, None).function(f.node)
+            # helper methods and class level constants of the record class are evaluated from their own statements
+            h = class_call_hook(c, hook2, ctx.model)
+            Evaluator({'self': Obj(value=text, _repo_class=c)}, h, h.name_hook_for(c.module, None)).function(f.node)
             strings = comp_box['c'].strings if 'c' in comp_box else []
             joined = ''.join(v for v, _ in strings)
             too_long = [len(v) for v, _ in strings if len(v) > 255]
